@@ -7,7 +7,17 @@ strings / header lists over the full code-point alphabet.  Tied to the code by
 K-task (the real WSGITask / ErrorTask / HTTPChannel.service driven with
 scripted applications, compared with the extracted model on every case) and by
 a model-free search: the head the REAL task wrote is split on CRLF and every
-line must be a line the application legitimately asked for or a server line."""
+line must be a line the application legitimately asked for or a server line.
+
+Applications that CATCH a refusal of start_response and carry on (try/except
+around the call, an error-handling wrapper) are scripts too (action "T" /
+ATryStart): Props/C08.v C08_refusal_residue says what each raise site leaves
+behind, C08_wire_accepted(_lines) that in every run of every script the status
+on the wire passed the status checks of one of the script's calls (or is the
+default) and every field was passed in a call accepted as a whole (or is a
+server field).  K-task and the search run every raise site x every way of
+producing output afterwards (body returned, write() from an earlier call, a
+further start_response call with / without exc_info, file wrapper)."""
 import json
 
 from harness import task as T
@@ -20,6 +30,7 @@ ASSUMPTIONS = [
     "str.capitalize / str.lower on arbitrary code points enter the theorems as Section variables with the hypothesis 'no CR, LF is produced from a string without CR, LF'; the hypothesis is tested on every run over all 0x110000 code points; the theorems are closed by a concrete instance that is exact below 256",
     "server configuration strings (ident, the date produced by build_http_date) contain no CR/LF and are latin-1",
     "C08 is stated at the level of head lines: a header name containing ':' or ' ' yields one line, exactly name ': ' value",
+    "an application that survives a refusal is modelled as try: start_response(...) except BaseException: pass (ATryStart); in the model write() is available to every script (the real callable only after a call returned: the model admits more scripts than exist); a refused call is not atomic -- a status that passed its own checks and int() of a Content-Length pair preceding the refused pair stay in the task (C08_strict_status_refuted, C08_residue_instance): the search accepts such a status in the status line, never a refused string",
 ]
 
 SERVER_NAMES = {"Date", "Server", "Via", "Connection", "Content-Length", "Transfer-Encoding"}
@@ -49,12 +60,24 @@ def acceptable(status, headers):
     return True
 
 
-def effective_request(case):
+def clean_status(st):
+    return isinstance(st, str) and "\r" not in st and "\n" not in st
+
+
+def effective_request(case, residue=None):
     """Walk the script in order: -> (status, pairs) the application has validly asked
     for when output begins or the script ends, or None if some call must be refused first.
-    Independent of the model: only the WSGI rules."""
+    Independent of the model: only the WSGI rules.
+
+    A call made inside try/except ("T") that must be refused contributes NONE of its
+    pairs; [residue] collects the status strings of such calls that are themselves valid
+    (a str without CR/LF): start_response stores the status before it looks at the
+    headers, so such a status may stand in the status line (observation recorded in
+    Props/C08.v: C08_strict_status_refuted).  A refused status is never collected."""
     app = case["app"]
     status, pairs, complete, began = None, [], False, False
+    if residue is None:
+        residue = []
     seq = [("acts", app["call"])]
     for s in app["steps"]:
         seq.append(("acts", s["acts"]))
@@ -83,9 +106,26 @@ def effective_request(case):
                     return (status, pairs, complete, began, "refused")
                 status = st
                 pairs = pairs + hs
+                del residue[:]
+            elif a[0] == "T":
+                st, hs, exc = a[1], a[2], a[3]
+                if complete and not exc:
+                    continue          # refused at the door, swallowed: nothing may change
+                if exc and began:
+                    continue          # exc_info[1] re-raised and swallowed: nothing may change
+                hs = [(T.real_obj(k), T.real_obj(v)) for k, v in hs]
+                if exc:
+                    pairs = []
+                complete = True
+                if acceptable(T.real_obj(st), hs):
+                    status = st
+                    pairs = pairs + hs
+                    del residue[:]
+                elif clean_status(T.real_obj(st)):
+                    residue.append(st)
             elif a[0] == "W":
-                if a[1] and a[1] != "-":
-                    began = True
+                # write() emits the head, also for b""
+                began = True
             elif a[0] == "R":
                 return (status, pairs, complete, began, "raised")
             elif a[0] == "M":
@@ -119,7 +159,8 @@ def search_one(case, real, cache):
     wire = T.wire_of(real)
     if case["req"]["err"] is not None:
         return None
-    status, pairs, complete, began, why = effective_request(case)
+    residue = []
+    status, pairs, complete, began, why = effective_request(case, residue)
     lines = head_lines(wire)
     if not wire:
         return None
@@ -135,9 +176,22 @@ def search_one(case, real, cache):
     # the application's own response: every line is the status line, an application
     # field (normalised in letter case only) or a server field
     version = case["req"]["version"] if case["req"]["version"] in ("1.0", "1.1") else "1.0"
-    try:
-        want_first = ("HTTP/%s %s" % (version, status)).encode("latin-1")
-    except UnicodeEncodeError:
+    if status is None:
+        status = "200 OK"       # no call was accepted (every refusal swallowed): the default
+    want_first = None
+    for cand in [status] + residue[::-1]:
+        try:
+            w1 = ("HTTP/%s %s" % (version, cand)).encode("latin-1")
+        except UnicodeEncodeError:
+            if cand is status and not residue:
+                return ("non latin-1 status emitted", "500", repr(wire[:80]))
+            continue
+        if want_first is None:
+            want_first = w1
+        if lines[0] == w1:
+            want_first, status = w1, cand
+            break
+    if want_first is None:
         return ("non latin-1 status emitted", "500", repr(wire[:80]))
     if lines[0] != want_first:
         return ("status line", repr(want_first), repr(lines[0]))
@@ -237,14 +291,20 @@ def run(ctx):
     table = T.decision_table()
     if ctx.tier == "quick":
         table = [table[i] for i in range(0, len(table), 7)]
-    cases = cases + table
+    # applications that catch a refusal of start_response and carry on: every raise site x
+    # every way of producing output afterwards, and random scripts with swallowed refusals
+    swallow = T.swallow_cases(rng, ctx.tier) + T.random_swallow_cases(rng, ctx.tier)
+    cases = cases + table + swallow
     lines = [T.ser_case(c) for _, c in cases]
     answers = runner.query(lines) if runner is not None else [None] * len(lines)
     agree = True
     search_ok = True
     evaluations = n_or
     nontrivial = set()
-    dist = {"accepted": 0, "refused->500": 0, "raised after output": 0, "other": 0}
+    dist = {"accepted": 0, "refused->500": 0, "raised after output": 0, "other": 0,
+            "refusal swallowed, a response head written": 0, "refusal swallowed, 500 or nothing": 0}
+    swallowed_kinds = {}
+    swallow_heads = set()
     outside = 0
     samples = []
     cache = {}
@@ -267,6 +327,14 @@ def run(ctx):
             ctx.report("search:%s:%s:%s" % (kf, v[0], json.dumps(tag)[:60]), "C08 fails on the real code (%s): %s" % (tag, v[0]),
                        {"kind": "search", "case": case, "expected": v[1], "observed": v[2], "what": v[0],
                         "failing_input_found": True}, kf_class=kf)
+        if extra.get("swallowed"):
+            for nm, _n in extra["swallowed"]:
+                swallowed_kinds[nm] = swallowed_kinds.get(nm, 0) + 1
+            if real["s500"] != "1" and real["w"] != "none":
+                dist["refusal swallowed, a response head written"] += 1
+                swallow_heads.add(real["w"].split(",")[0])
+            else:
+                dist["refusal swallowed, 500 or nothing"] += 1
         if real["s500"] == "1":
             dist["refused->500"] += 1
         elif real["esc"] == "none" and real["wh"] == "1" and real["close"] in ("0", "1") and real["w"] != "none":
@@ -277,7 +345,7 @@ def run(ctx):
         if len(samples) < 5 and tag[0] == "hostile" and len(samples) < 5 and evaluations % 97 == 0:
             samples.append({"tag": list(map(str, tag)), "wire_head": hexb(T.wire_of(real)[:120])})
     ctx.oblige("K-task: extracted model agrees with the real task/channel on every generated case (writes, close, close() count, hand-over, escaped exception)", agree)
-    ctx.oblige("search: every head line the REAL task wrote is the status line, a validated application field or a server field; refusals give the server-only 500 (outside open known-finding classes)", search_ok)
+    ctx.oblige("search: every head line the REAL task wrote is the status line, a validated application field or a server field; refusals give the server-only 500, swallowed refusals leave none of the refused strings in the head (outside open known-finding classes)", search_ok)
 
     if not props_ok and not ctx.violations:
         ctx.report("c08-proof-broken", "Props/C08.v no longer checks (%s)" % failing,
@@ -286,7 +354,9 @@ def run(ctx):
     ctx.coverage.update({
         "evaluations": len(cases),
         "distinct_nontrivial": len(nontrivial),
-        "rule": "non-trivial = distinct response heads written by the real task for an accepted start_response; cases: every hostile code point at every position of status/name/value x 5 ways of reaching start_response, structural specials, non-str objects, mutation after the call, random header lists, and a slice of the framing decision table",
+        "rule": "non-trivial = distinct response heads written by the real task for an accepted start_response; cases: every hostile code point at every position of status/name/value x 10 ways of reaching start_response (5 of them with the refusal swallowed by the application), structural specials, non-str objects, mutation after the call, random header lists, a slice of the framing decision table, every raise site of start_response swallowed x every way of producing output afterwards, random scripts with swallowed refusals",
+        "swallowed_refusals_by_exception": swallowed_kinds,
+        "distinct_heads_after_swallowed_refusal": len(swallow_heads),
         "samples": samples,
         "distribution": dist,
         "cases": len(cases),
